@@ -61,6 +61,9 @@ F = {
     'f_ok_tmplab': '\tcpu 6502\n-\tnop\n/\tnop\n-\tnop\n\tbne -\n\tbne --\n',
     'f_tmplab': '\tcpu 6502\n-\tnop\n/\tnop\n\tbne -\n\tfoo\n',
     'g_tmpuse': '\tcpu 6502\n\torg $10\n\tnop\n\tbne -\n+\tnop\n\tbne +\n+\tnop\n',
+    # export entries queued while the current record is empty (nothing follows that would write them out)
+    'f_ok_exportonly': '\tcpu 6502\nfoo\tequ 5\n\texport_sym foo\n',
+    'f_ok_export_emptyrec': '\tcpu 6502\nfoo\tequ 5\n\tnop\n\torg $2000\n\texport_sym foo\n',
     'f_fatal': None,   # placeholder: fatal ends the run, nothing follows
     'f_defsym': '\tcpu 6502\nsym\tequ 5\nm1\tmacro\n\tnop\n\tendm\n\tfoo\n',
     'f_sh_literal': '\tcpu sh7600\n\torg 0\n\tmov.l #$cafebabe,r1\n\trts\n\tnop\n',       # fails: literal pool never flushed by LTORG
